@@ -5,7 +5,7 @@
 From Coq Require Import List NArith Bool.
 Import ListNotations.
 Require Import RV.Lib.PyStr RV.Lib.Item RV.Model.Store RV.Model.Access RV.Model.Handlers
-               RV.Proofs.HandlersInv RV.Proofs.HandlersRights RV.Proofs.HandlersNI RV.Proofs.GenEqAccess.
+               RV.Proofs.HandlersInv RV.Proofs.HandlersRights RV.Proofs.HandlersNI RV.Proofs.HandlersQuery RV.Proofs.GenEqAccess.
 Require RV.Gen.AccessGen.
 Open Scope N_scope.
 
@@ -93,3 +93,47 @@ Theorem C03_multiget : forall pol s p cal hs l,
   do_multiget pol s p cal hs = (S207, PListing l) -> forall q o w, In (EItemE q o w) l -> has lr (pol (parent q)) = true.
 Proof. exact multiget_entries_need_r. Qed.
 Print Assumptions C03_multiget.
+
+(* ---- the other REPORTs (calendar-query, addressbook-query, sync-collection, free-busy-query): `RQuery p k flt`,
+   flt = the request's filter as an arbitrary predicate on stored objects.  C03_noninterference above already covers
+   them (it quantifies over every request, hence over every filter); the single-request form: *)
+Theorem C03_query_noninterference : forall cfg pol u ds a b p k flt,
+  Forall (dark_root pol) ds ->
+  filter (fun qc => negb (covered ds (fst qc))) a = filter (fun qc => negb (covered ds (fst qc))) b ->
+  snd (handle cfg pol u a (RQuery p k flt)) = snd (handle cfg pol u b (RQuery p k flt)).
+Proof.
+  intros cfg pol u ds a b p k flt Hds H.
+  pose proof (c03_noninterference cfg pol u ds a b [RQuery p k flt] Hds H) as Hn. cbn [run_history] in Hn.
+  destruct (handle cfg pol u a (RQuery p k flt)), (handle cfg pol u b (RQuery p k flt)). cbn [snd] in *. congruence.
+Qed.
+Print Assumptions C03_query_noninterference.
+
+(* they are observers *)
+Theorem C03_query_pure : forall cfg pol u s p k flt,
+  fst (handle cfg pol u s (RQuery p k flt)) = ensure_home pol s u.
+Proof. exact query_pure. Qed.
+Print Assumptions C03_query_pure.
+
+(* inversion: an item is answered only if it is a stored member of a collection on which the policy grants r
+   (the letter report.py tests through access.check("r", target)), and only if it passes the filter *)
+Theorem C03_query : forall pol s p k flt l,
+  do_query pol s p k flt = (S207, PListing l) ->
+  forall q o w, In (EItemE q o w) l ->
+    has lr (pol (parent q)) = true
+    /\ (exists c, lookup s (parent q) = Some c /\ In (last_name q, o) (c_items c) /\ q = parent q ++ [last_name q])
+    /\ (forall sel, flt = Some sel -> sel o = true).
+Proof. exact query_entries_need_r. Qed.
+Print Assumptions C03_query.
+
+Theorem C03_freebusy : forall pol s p flt l,
+  do_query pol s p QFreeBusy flt = (S200, PBusy l) ->
+  exists cp c sel, (cp = p \/ cp = parent p /\ is_root p = false) /\ lookup s cp = Some c /\ c_tag c = TCal
+    /\ has lr (pol cp) = true /\ flt = Some sel
+    /\ forall o, In o l -> In o (map snd (c_items c)) /\ is_event o = true /\ sel o = true.
+Proof. exact freebusy_needs_r. Qed.
+Print Assumptions C03_freebusy.
+
+Theorem C03_query_denied_first : forall pol s p k flt,
+  check pol p lr NoItem = false -> do_query pol s p k flt = (S403NA, PNone).
+Proof. exact query_denied_first. Qed.
+Print Assumptions C03_query_denied_first.
